@@ -94,6 +94,47 @@ class Routes(object):
         self.refinegrains = refinegrains
 
 
+def scaled_case(case, hs):
+    """the same case with every hkl multiplied by the integer hs (offsets d unchanged): the specification's
+    definitions (R = sum g h^T, H = sum h h^T over the selected / labelled peaks) re-evaluated in python integers,
+    because |h| ~ 1e3 x 1e5 peaks does not fit TLC's 32-bit integers.  Selection flags do not change."""
+    M = [[int(x) for x in r] for r in case["M"]]
+    D = [int(x) for x in case["D"]]
+    # 512 UB = M^-1 diag(8/D) 64  (integer): adjugate / det, det = +-1
+    def adj(m):
+        c = [[0] * 3 for _ in range(3)]
+        for i in range(3):
+            for j in range(3):
+                a, b = [r for r in range(3) if r != i], [r for r in range(3) if r != j]
+                c[j][i] = (-1) ** (i + j) * (m[a[0]][b[0]] * m[a[1]][b[1]] - m[a[0]][b[1]] * m[a[1]][b[0]])
+        return c
+    det = (M[0][0] * (M[1][1] * M[2][2] - M[1][2] * M[2][1]) - M[0][1] * (M[1][0] * M[2][2] - M[1][2] * M[2][0])
+           + M[0][2] * (M[1][0] * M[2][1] - M[1][1] * M[2][0]))
+    Mi = [[det * x for x in r] for r in adj(M)]
+    out = dict(case)
+    pk = []
+    R = [[0] * 3 for _ in range(3)]
+    H = [[0] * 3 for _ in range(3)]
+    Rl = [[0] * 3 for _ in range(3)]
+    Hl = [[0] * 3 for _ in range(3)]
+    for p in case["peaks"]:
+        h = [hs * int(x) for x in p["h"]]
+        x = [64 * h[i] + int(p["d"][i]) for i in range(3)]
+        y = [(8 // D[i]) * x[i] for i in range(3)]
+        g = [sum(Mi[i][k] * y[k] for k in range(3)) for i in range(3)]
+        pk.append(dict(p, h=h, g512=g))
+        for (sel, RR, HH) in ((p["sel"], R, H), (p["lab"], Rl, Hl)):
+            if sel:
+                for i in range(3):
+                    for j in range(3):
+                        RR[i][j] += g[i] * h[j]
+                        HH[i][j] += h[i] * h[j]
+    out.update(peaks=pk, R=R, H=H, Rl=Rl, Hl=Hl)
+    dH = frac_inv(H)
+    out["detH"] = 0 if dH is None else 1
+    return out
+
+
 def judge(case, rt, reps=1, perturb=None):
     """returns list of problems for one emitted case, peak list tiled `reps` times"""
     c = rt.c
@@ -225,8 +266,9 @@ def run(tier, replay=None):
                        "zero-length peak lists cannot be passed through the f2py wrappers"]
     if replay:
         case = json.load(open(replay))["case"]
+        jc = scaled_case(case, case["hscale"]) if case.get("hscale") else case
         for reps in case.get("reps_list", [1]):
-            report(chk, judge(case, rt, reps), case, reps)
+            report(chk, judge(jc, rt, reps), case, reps)
             chk.case((json.dumps(case, sort_keys=True), reps))
             chk.traces += 1
         chk.sample({"replayed": replay})
@@ -263,6 +305,14 @@ def run(tier, replay=None):
             report(chk, probs, case, reps)
             chk.case((idx, reps), nontrivial=case["n"] > 0)
             chk.traces += 1
+        if len(reps_list) > 1:
+            # hkl up to ~1e3 and up to 1e5 peaks: sums of h_i h_j beyond 2^31 (python-integer re-evaluation of the definitions)
+            big = scaled_case(case, 10)
+            for reps in (1, 20000 // npk, 100000 // npk if tier == "thorough" else 30000 // npk):
+                probs = judge(big, rt, reps)
+                report(chk, probs, dict(case, hscale=10), reps)
+                chk.case((idx, reps, "h*10"), nontrivial=case["n"] > 0)
+                chk.traces += 1
         if case["detH"] == 0 and case["n"] > 0:
             nsing += 1
         elif case["n"] > 0:
